@@ -388,7 +388,7 @@ Proof.
             parse_datetime now (sg :: ds) =
             match parse_i64 (sg :: ds) with
             | Some n => Det (Ok (day_interval (now + n)))
-            | None => Det (Panic site_days)
+            | None => Det (Exit2 (msg_parse ++ sg :: ds))
             end).
   { intros sg Hsg. unfold parse_datetime.
     destruct (not_keyword_lt sg ds ltac:(lia)) as [K1 K2]. rewrite K1, K2.
